@@ -303,4 +303,48 @@ theorem split_add_counterexample : ¬ FullStatementSplitAdd := by
   revert this
   decide
 
+/-! ## E. Crash points during the very first start-up, and crashes of the start-up after a crash -/
+
+def FullStatementFirstBootCrash : Prop :=
+  ∀ (gs : List Group) (k : Nat) (d : Store) (m : List Bytes), GenesisOK gs →
+    firstBootB [] [] gs k = some (.crashed d m) → ∃ c l, restart d m gs = some (.alive c) ∧ Rep l c
+
+/-- Proved part, including double crashes: the first start-up cut after ≤ 1 write, the start-up
+    after it cut again after ≤ 1 write, … any number of times (`FreshFor` is kept) — the next
+    uninterrupted start-up represents exactly the genesis list. -/
+theorem inv_first_boot_crash_partial {g0 : Group} {rest : List Group} (ok : GenesisOK (g0 :: rest))
+    (k1 k2 : Nat) (h1 : k1 ≤ 1) (h2 : k2 ≤ 1) :
+    ∃ d1 d2 c, firstBootB [] [] (g0 :: rest) k1 = some (.crashed d1 []) ∧
+      firstBootB d1 [] (g0 :: rest) k2 = some (.crashed d2 []) ∧
+      restart d2 [] (g0 :: rest) = some (.alive c) ∧ Rep (stampFrom 0 (g0 :: rest)) c := by
+  obtain ⟨d1, e1, f1⟩ := firstBoot_le1 ok [] [] (fun _ _ => rfl) k1 h1
+  obtain ⟨d2, e2, f2⟩ := firstBoot_le1 ok d1 [] f1 k2 h2
+  obtain ⟨c, e3, r⟩ := rep_init_fresh ok d2 [] f2
+  exact ⟨d1, d2, c, e1, e2, e3, r⟩
+
+/-- Known finding crash:firstboot:k2 — [bootcrash 2 - g0]: `gcurrent` is written, `gcount` is not;
+    the next start-up takes the non-genesis branch with `count = 0` and a one-group list. -/
+theorem inv_first_boot_crash_counterexample : ¬ FullStatementFirstBootCrash := by
+  intro h
+  obtain ⟨c, l, h1, r⟩ := h [g0] 2 (applyPrefix 2 [] (saveWrites 0 g0)) [] genesisOK_g0 (by decide)
+  have hc : restart (applyPrefix 2 [] (saveWrites 0 g0)) [] [g0] =
+      some (.alive { disk := applyPrefix 2 [] (saveWrites 0 g0), count := 0, last := stamped 0 g0,
+                     mirror := refreshCache (applyPrefix 2 [] (saveWrites 0 g0)) 0 (stamped 0 g0) [] }) := by
+    decide
+  rw [hc] at h1
+  simp at h1
+  subst h1
+  have := rep_count_eq_iter r
+  revert this
+  decide
+
+/-- A first start-up with two genesis groups cut exactly between them comes back as a valid chain
+    of the first group only: the second genesis group is silently never added. -/
+theorem first_boot_cut_between_genesis :
+    ∃ d m c, firstBootB [] [] [g0, gA] 4 = some (.crashed d m) ∧
+      restart d m [g0, gA] = some (.alive c) ∧ Rep [g0] c := by
+  have hd : firstBootB [] [] [g0, gA] 4 = some (.crashed c1.disk c1.mirror) := by decide
+  obtain ⟨c', e, _, _, _, r⟩ := rep_restart rep_c1 c1.mirror [g0, gA]
+  exact ⟨c1.disk, c1.mirror, c', hd, e, r⟩
+
 end Rangers.Props.C19
